@@ -21,8 +21,11 @@ os.environ.setdefault("PYTTB_REPO", REPO)
 
 BASELINE_PATH = os.path.join(HERE, "contracts", "BASELINE_OBLIGATIONS.json")
 KNOWN_PATH = os.path.join(HERE, "KNOWN_FINDINGS.jsonl")
-EVID_DIR = os.path.join(HERE, "evidence")
-REPLAY_DIR = os.path.join(HERE, "replays")
+# VERIF_OUT redirects evidence and replays (used by the self-tests, which run the checks against
+# scratch copies and must not overwrite the evidence of /repo)
+_OUT = os.environ.get("VERIF_OUT") or HERE
+EVID_DIR = os.path.join(_OUT, "evidence")
+REPLAY_DIR = os.path.join(_OUT, "replays")
 
 CONTRACT_MODULES = ["utils", "sptensor", "tensor", "ktensor", "mats", "algos", "gcp", "misc"]
 STANDIN_MODULES = ["c01", "c02", "c03", "c04", "c05", "c06", "c07", "c08", "c09", "c10", "c12", "c13",
@@ -56,7 +59,7 @@ def norm_label(name: str) -> str:
     baseline survives harmless edits (moved lines, reordered independent branches)."""
     name = re.sub(r"~\d+", "", name)
     name = re.sub(r"@L(\d+|None)", "", name)
-    name = re.sub(r"@[TF\-]+$", "", name)
+    name = re.sub(r"@[TF\-]+((?:\.\d+)*)$", r"\1", name)
     name = re.sub(r"loop@\d+", "loop", name)
     return name
 
@@ -93,7 +96,10 @@ def proof_stage(prop, plan, tier, registry):
     timeout_ms = 10000 if tier == "quick" else 60000
     t0 = time.time()
     all_tasks = []
+    only = set(filter(None, os.environ.get("VERIF_ONLY_FUNCS", "").split(",")))
     for q in plan.get("functions", []):
+        if only and q not in only:
+            continue
         c = registry.get(q)
         if c is None:
             continue
@@ -107,7 +113,7 @@ def proof_stage(prop, plan, tier, registry):
         rep.tasks = dict(tasks)
         reports.append(rep)
     # obligations decided by other back ends (sympy / AST), already carrying their verdict
-    for prov in plan.get("extra", []):
+    for prov in ([] if (only and "extra" not in only) else plan.get("extra", [])):
         from pyvc.verify import FuncReport
         mod, fn = prov.rsplit(".", 1)
         try:
@@ -151,6 +157,15 @@ def proof_stage(prop, plan, tier, registry):
             else:
                 jobs.append((name, smt, timeout_ms, True))
     res = solve_all(jobs)
+    # anything left open gets a second, longer, less crowded attempt before a verdict is drawn
+    # (keeps verdicts stable when the machine is busy)
+    retry = [(n, smt, 6 * tmo, cv) for (n, smt, tmo, cv) in jobs if cv and res.get(n, {}).get("result") not in ("unsat", "sat")]
+    if retry and len(retry) <= 64:
+        res2 = solve_all(retry, workers=8)
+        for n, r in res2.items():
+            r["time"] = (r.get("time") or 0.0) + (res[n].get("time") or 0.0)
+            r["retried"] = True
+            res[n] = r
     for rep in reports:
         if getattr(rep, "presolved", False):
             continue
@@ -383,7 +398,7 @@ def run_property(prop, tier, seed):
         property_id=prop, tier=tier, seed=seed, level=level, coverage=coverage,
         assumptions=[
             "Python/NumPy integers are mathematical integers (no int64 overflow); floats are mathematical reals in proofs",
-            "assumed contracts of NumPy/SciPy/numpy_groupies primitives (trusted_base entries 'numpy:*'), validated against the real NumPy on a small scope by setup",
+            "assumed contracts of NumPy/SciPy/numpy_groupies primitives (trusted_base entries 'numpy:*'), cross-checked only end-to-end: every proved postcondition is also evaluated on the real function under real NumPy by the bounded stand-in of the same property; the primitive models themselves are not separately validated",
             "python -O is not used (assert-based argument checks are live)",
         ] + list(plan.get("assumptions", [])) + _assumptions_from(plan),
         wall_s=round(wall, 2), violations=violations,
